@@ -371,7 +371,7 @@ Proof.
           else if has om OpenCreateExcl then (s, inl (RFail EFileExists))
           else
             let d1 := if has om OpenTruncate then [] else d in
-            let at_ := if has om OpenAppend then Z.of_nat (length d1) else 0%Z in
+            let at_ := 0%Z in
             (with_heap s (upd (f_heap s) c (NFile d1 k i m)), inr (new_handle c vi name at_ om))
       | Some (NDir _ m) =>
           if has om OpenCreateExcl then (s, inl (RFail EFileExists))
@@ -406,7 +406,8 @@ Lemma f_write_metas (s : fsys) (v : view) (f : handle) (b : list N) : metas_kept
 Proof.
   unfold f_write. destruct (hd_name f); [apply metas_kept_refl|]. destruct (hd_node f) as [c|]; [|apply metas_kept_refl].
   unfold file_of. destruct (get (f_heap s) c) as [[ch m|d k i m|t m]|] eqn:Hg; try apply metas_kept_refl.
-  destruct (negb _); [apply metas_kept_refl|]. cbv zeta. cbn [fst with_heap f_heap]. split; [apply upd_length|].
+  destruct (negb _); [apply metas_kept_refl|]. destruct b; [apply metas_kept_refl|].
+  cbv zeta. cbn [fst with_heap f_heap]. split; [apply upd_length|].
   intros j. apply meta_at_upd. intros y Hy. rewrite Hg in Hy. injection Hy as <-. reflexivity.
 Qed.
 
